@@ -4,7 +4,7 @@ Active only when MESON_VERIF_BUILD_DIR is set.  Every file-system mutation whose
 directory is an *effect*; effects are numbered 0,1,2,... in program order and appended, one line each, to
 the file named by MESON_VERIF_EFFECT_LOG (if set):
 
-    <index> <kind> <path relative to the build dir> [<second path>|<nbytes>]
+    <index> <kind> <path relative to the build dir> [<second path>|<nbytes>|site=<file>:<line>:<function> for opens]
 
 Kinds: open_w (create/truncate for writing), open_a (append / r+), write, flush, fsync, close, replace, rename,
 unlink, rmdir, mkdir, copyfile, other.  Paths outside the build directory are printed as `@out/<basename>`.
@@ -144,13 +144,27 @@ if _BD:
             except Exception:
                 pass
 
+    def _site():
+        """nearest caller inside the meson sources: site=<file relative to the repo>:<line>:<function>"""
+        try:
+            f = _sys._getframe(2)
+            while f is not None:
+                fn = f.f_code.co_filename
+                i = fn.rfind('mesonbuild' + _os.sep)
+                if i >= 0:
+                    return 'site=%s:%d:%s' % (fn[i:], f.f_lineno, f.f_code.co_name)
+                f = f.f_back
+        except Exception:
+            pass
+        return 'site=?'
+
     def _open(file, mode='r', *args, **kwargs):
         m = mode if isinstance(mode, str) else 'r'
         writing = any(c in m for c in 'wax+')
         rel = _rel(file) if writing else None
         if rel is None:
             return _real_open(file, mode, *args, **kwargs)
-        _effect('open_w' if 'w' in m or 'x' in m else 'open_a', rel)
+        _effect('open_w' if 'w' in m or 'x' in m else 'open_a', rel, _site())
         return _W(_real_open(file, mode, *args, **kwargs), rel)
 
     _builtins.open = _open
